@@ -146,7 +146,7 @@ def judged(ctx, n, maxdepth):
 
 
 def run(ctx):
-    exhaustive(ctx, 7 if ctx.quick() else 9)
+    exhaustive(ctx, 7 if ctx.quick() else 8)
     judged(ctx, 3000 if ctx.quick() else 40000, 12 if ctx.quick() else 30)
     ctx.exhaustive = False
     ctx.assumptions += ["nesting depth of generated names <= 30 (Python's recursion limit is environment, DESIGN "
